@@ -797,7 +797,6 @@ func ruleW3(c *Ctx, id string) {
 	}
 }
 
-
 // isFreeVarLoad: v is (a load of) a variable captured from the enclosing function.
 func isFreeVarLoad(v ssa.Value) bool {
 	if _, ok := v.(*ssa.FreeVar); ok {
@@ -845,7 +844,6 @@ func capturedAs(call *ssa.Call, cal *ssa.Function, v ssa.Value) []ssa.Value {
 	}
 	return out
 }
-
 
 // bmapHelperCall: in is the call, inside Inode.Write, of a private helper of
 // Write that holds Write's block loop (the bmap call was moved there): the
